@@ -103,6 +103,7 @@ def build(cmd, redirs, spaced):
         core = 'unalias nosuch %s' % rs
     else:
         core = 'read RV %s' % rs
+        return ('alias q=r ; %s ; vh-mark S 0 $? ; vh-argv2 "$RV" ; vh-io P' % core).replace('  ', ' ')
     return ('alias q=r ; %s ; vh-mark S 0 $? ; vh-io P' % core).replace('  ', ' ')
 
 
@@ -146,6 +147,8 @@ def run_case(case):
                 obs['io'][x['argv'][0]] = (x.get('stdin') or b'').decode('utf-8', 'replace') if 'stdin' in x else None
             if x.get('k') == 'mark' and x['argv'][0] == 'S':
                 obs['qstatus'] = x['argv'][2]
+            if x.get('k') == 'argv' and x.get('name') == 'vh-argv2':
+                obs['read_value'] = x['argv'][0] if x['argv'] else ''
         return case, line, obs
     finally:
         common.drop_case_dir(d)
@@ -216,6 +219,8 @@ def compare(case, exp, obs, baseline):
         if cmd == 'ext' and obs['io'].get('T') != m['stdin']:
             return 'stdin-bytes'
         if cmd == 'read':
+            if obs.get('read_value') != (m['stdin'] or '').rstrip('\n'):
+                return 'stdin-bytes'
             return None
         want_status = '1' if cmd == 'unalias' else '0'
         if obs['qstatus'] != want_status:
@@ -279,8 +284,10 @@ def cases(tier):
 def sig_class(case):
     cmd, redirs, spaced, state = case
     kinds = sorted(set(('dup' if '&' in r else 'here' if r.startswith('<<<') else 'in' if r.startswith('<') else 'file') for r in redirs))
-    return '%s:%s:%s:%s' % ('builtin-' + cmd if cmd in ('alias', 'unalias', 'read') else 'external', '+'.join(kinds) or 'none',
-                            'spaced' if spaced else 'attached', state)
+    if cmd in ('alias', 'unalias', 'read'):
+        # builtins that run inside the shell: one class per builtin and kind of redirections used
+        return 'builtin-%s:%s' % (cmd, '+'.join(kinds) or 'none')
+    return 'external:%s:%s:%s:%s' % (cmd, '+'.join(kinds) or 'none', 'spaced' if spaced else 'attached', state)
 
 
 def run(rep, tier):
@@ -313,7 +320,7 @@ def run(rep, tier):
             rep.outcome('deviation:' + dev)
             e = {k: exp['model'].get(k) for k in ('files', 'OUT', 'ERR', 'stdin', 'failed')}
             rep.violation('%s:%s' % (dev, sig_class(case)), {'line': line, 'file_state': case[3]}, e,
-                          {k: obs[k] for k in ('files', 'out', 'err', 'io', 'qstatus', 'new')}, repro='cicada -c %s' % common.shquote(line))
+                          {k: obs.get(k) for k in ('files', 'out', 'err', 'io', 'qstatus', 'new', 'read_value')}, repro='cicada -c %s' % common.shquote(line))
     rep.states = len(states)
     rep.bounds.append({'layer': 'real binary -c', 'max_redirections': 3 if tier == 'thorough' else 2, 'cases': len(cs), 'complete': True})
     rep.sample({'line': build(*cs[len(cs) // 2][:3]), 'file_state': cs[len(cs) // 2][3]})
